@@ -15,6 +15,7 @@ import (
 	scom "github.com/polynetwork/poly/native/service/cross_chain_manager/common"
 	hcosmos "github.com/polynetwork/poly/native/service/header_sync/cosmos"
 	"github.com/tendermint/tendermint/crypto/merkle"
+	"github.com/tendermint/tendermint/types"
 	"pgregory.net/rapid"
 
 	"verif/harness/ev"
@@ -253,6 +254,41 @@ type runner struct {
 func (r *runner) setAt(i int) []valSpec {
 	n := len(r.c.Sets)
 	return r.c.Sets[((i%n)+n)%n]
+}
+
+// learnSets fills the reverse map hash -> set content from the harness-computed hashes. Two different
+// contents under one hash are reported, and so is a disagreement between the harness's reference hash
+// and the hash the code under test computes for the same set (a hash that does not commit to both the
+// keys and the powers would let a re-weighted set pass as the trusted one).
+func (r *runner) learnSets() {
+	add := func(h []byte, s []valSpec) {
+		k := hex.EncodeToString(h)
+		if prev, ok := r.known[k]; ok && prev != setContent(s) {
+			r.ctx.Failf("router %s: validator sets %q and %q have the same hash %s", r.c.Router, prev, setContent(s), k)
+		}
+		r.known[k] = setContent(s)
+	}
+	for _, s := range r.c.Sets {
+		ref := r.rt.setHash(s, 10)
+		add(ref, s)
+		switch r.c.Router {
+		case "heimdall":
+			if impl := implHeimdallSetHash(s); !bytes.Equal(impl, ref) {
+				r.ctx.Failf("heimdall: ValidatorSet.Hash() of {%s} is %x, but the hash defined by the format (merkle over amino{pubkey, voting power} in address order) is %x: the light client's validator-set hash does not commit to exactly the keys AND powers",
+					setContent(s), impl, ref)
+			}
+		case "cosmos":
+			ref11 := r.rt.setHash(s, 11)
+			add(ref11, s)
+			legacy := types.NewValidatorSet(tm33Vals(s))
+			if impl := hcosmos.HashCosmosValSet(legacy, 11); !bytes.Equal(impl, ref11) {
+				r.ctx.Failf("cosmos: HashCosmosValSet(v11) of {%s} is %x, the tendermint 0.34 library gives %x", setContent(s), impl, ref11)
+			}
+			if impl := hcosmos.HashCosmosValSet(legacy, 10); !bytes.Equal(impl, ref) {
+				r.ctx.Failf("cosmos: HashCosmosValSet(v10) of {%s} is %x, the tendermint 0.33 library gives %x", setContent(s), impl, ref)
+			}
+		}
+	}
 }
 
 // trustedIndex finds a set of the case whose hash (in any format) is nvh; -1 if none.
@@ -650,12 +686,7 @@ func runC30(ctx *ev.Ctx, c c30Case) {
 	ctx.Label("router:" + c.Router)
 	r.count("cases")
 	r.e = newEnv(c.Router)
-	for _, s := range c.Sets {
-		r.known[hex.EncodeToString(r.rt.setHash(s, 10))] = setContent(s)
-		if c.Router == "cosmos" {
-			r.known[hex.EncodeToString(r.rt.setHash(s, 11))] = setContent(s)
-		}
-	}
+	r.learnSets()
 	// ---- trust root: genesis header, next validators = set 0
 	gver := c.GenVer
 	if gver == 0 {
